@@ -356,6 +356,9 @@ def _run_errors(desc):
         coeff_or_raise('keyword-not-a-blade-name', lambda: alg.multivector(**{'x' + w: 5}), {'__never__': 1}, f'the keyword x{w} is no blade name')
         coeff_or_raise('keyword-not-a-blade-name', lambda: alg.multivector(**{'_' + w[:1]: 5}), {'__never__': 1}, f'the keyword _{w[:1]} is no blade name')
         # (keys=() next to a full list of values is the documented default 'no keys given', not a length mismatch)
+        g1_ = [k for k in alg.bin2canon if bin(k).count('1') == 1]
+        coeff_or_raise('keys-from-a-reversed-iterator', lambda: alg.vector([10 * (i + 1) for i in range(len(g1_))], keys=reversed(tuple(g1_))),
+                       dict(zip(reversed(g1_), [10 * (i + 1) for i in range(len(g1_))])), 'integer keys given as a one-shot iterator (reversed)')
         coeff_or_raise('keys-from-a-generator', lambda: alg.multivector(keys=(k for k in (3, 1)), values=[12, 7]), {3: 12, 1: 7}, 'integer keys given as a generator')
         coeff_or_raise('keys-from-a-map-object', lambda: alg.multivector(keys=map(int, ('3', '1')), values=[12, 7]), {3: 12, 1: 7}, 'integer keys given as a map object')
         xx = alg.multivector(keys=(k12, 1), values=[4, 9])
